@@ -282,6 +282,21 @@ func checkCase(t failer, c pcase) (labels []string) {
 				}
 				reqTx = ntp.Time64{Seconds: binary.BigEndian.Uint32(raw[l4+8+40:]), Fraction: binary.BigEndian.Uint32(raw[l4+8+44:])}
 			}
+		case "l4-prefix":
+			// a captured authentic packet with a forged UDP datagram (same ports and length, another NTP request)
+			// inserted in front of the genuine one: the MAC still matches the genuine L4 bytes at the end of the
+			// datagram, but not the L4 data a receiver parses and would act on
+			if c.Payload == "ntp" {
+				l4 := len(raw) - len(pr.L4Bytes)
+				forged := bytes.Clone(raw[l4:])
+				forged[6], forged[7] = 0, 0 // no UDP checksum
+				forged[8+40] ^= 0x5a        // another transmit timestamp: a different request
+				forged[8+47] ^= 0xa5
+				reqTx = ntp.Time64{Seconds: binary.BigEndian.Uint32(forged[8+40:]), Fraction: binary.BigEndian.Uint32(forged[8+44:])}
+				raw = append(append(bytes.Clone(raw[:l4]), forged...), raw[l4:]...)
+				binary.BigEndian.PutUint16(raw[6:], binary.BigEndian.Uint16(raw[6:])+uint16(len(forged)))
+				expectAuthFail = true
+			}
 		}
 		if c.SPAO == "other-spi" || c.SPAO == "server-spi" || c.SPAO == "other-algo" {
 			labels = append(labels, "foreign-authenticator")
@@ -493,7 +508,7 @@ func TestPropListenerProbes(t *testing.T) {
 			SrcIA:   rapid.Uint64().Draw(t, "srcia"), DstIA: rapid.Uint64().Draw(t, "dstia"),
 			Path:    genPath(t),
 			SrcPort: rapid.Uint16Range(1, 65535).Draw(t, "srcport"),
-			SPAO:    rapid.SampledFrom([]string{"none", "none", "valid", "valid", "mac-bit", "covered-byte", "meta-bit", "other-spi", "server-spi", "other-algo"}).Draw(t, "spao"),
+			SPAO:    rapid.SampledFrom([]string{"none", "none", "valid", "valid", "mac-bit", "covered-byte", "meta-bit", "other-spi", "server-spi", "other-algo", "l4-prefix"}).Draw(t, "spao"),
 			Bit:     rapid.IntRange(0, 1<<16).Draw(t, "bit"),
 			HBH:     rapid.IntRange(0, 4).Draw(t, "hbh") == 3,
 			EchoLen: rapid.OneOf(rapid.IntRange(0, 1200), rapid.IntRange(0, 16)).Draw(t, "echolen"),
@@ -596,7 +611,7 @@ var (
 	relayErr  error
 )
 
-var recE2E = ev.New("c13/end-to-end", "rapid: a real SCIONClient (packet authentication on/off, mock keys) measures over a generated path (empty or 1..3 segments) through a harness relay acting as border router against the real SCION listener; the relay passes datagrams unchanged or flips one covered byte of the request / of the reply, or strips the reply's authenticator. Oracle: unchanged => success and, with authentication on, the request's authenticator verifies and the reply carries a server-direction authenticator that verifies (recomputed by the harness); a flipped covered byte of an authenticated request => no reply and client error; a flipped covered byte of an authenticated reply => client error, never an offset. One evaluation = one client call. Non-trivial: authentication on with a tampered datagram, or a non-empty path")
+var recE2E = ev.New("c13/end-to-end", "rapid: a real SCIONClient (packet authentication on/off, mock keys) measures over a generated path (empty or 1..3 segments) through a harness relay acting as border router against the real SCION listener; the relay passes datagrams unchanged or flips one covered byte of the request / of the reply, or strips the reply's authenticator, or inserts a forged UDP datagram in front of the authentic reply's, or re-serializes the reply behind a hop-by-hop extension with one covered byte changed. Oracle: unchanged => success and, with authentication on, the request's authenticator verifies and the reply carries a server-direction authenticator that verifies (recomputed by the harness); a flipped covered byte of an authenticated request => no reply and client error; a flipped covered byte of an authenticated reply => client error, never an offset. One evaluation = one client call. Non-trivial: authentication on with a tampered datagram, or a non-empty path")
 
 func TestPropEndToEnd(t *testing.T) {
 	relayOnce.Do(func() { relay, relayErr = newRelay() })
@@ -605,7 +620,7 @@ func TestPropEndToEnd(t *testing.T) {
 	}
 	vt.Check(t, 300, 3000, func(t *rapid.T) {
 		authOn := rapid.Bool().Draw(t, "client-auth")
-		tamper := rapid.SampledFrom([]string{"none", "none", "request-byte", "reply-byte", "reply-byte"}).Draw(t, "tamper")
+		tamper := rapid.SampledFrom([]string{"none", "none", "request-byte", "reply-byte", "reply-byte", "reply-l4-prefix", "reply-hbh-flip"}).Draw(t, "tamper")
 		ps := genPath(t)
 		if ps.Kind == "onehop" {
 			ps.Kind = "empty"
@@ -635,11 +650,49 @@ func TestPropEndToEnd(t *testing.T) {
 		}
 		relay.mu.Lock()
 		relay.seenReq, relay.seenRsp, relay.mutReq, relay.mutRsp = nil, nil, nil, nil
+		if !authOn && (tamper == "reply-l4-prefix" || tamper == "reply-hbh-flip") {
+			tamper = "none" // these are about what the authenticator covers
+		}
 		switch tamper {
 		case "request-byte":
 			relay.mutReq = flip
 		case "reply-byte":
 			relay.mutRsp = flip
+		case "reply-l4-prefix":
+			// the authentic reply with a forged UDP datagram (server timestamps 1000 s ahead) inserted in front of the genuine one
+			relay.mutRsp = func(b []byte) []byte {
+				p, err := wire.Parse(b)
+				if err != nil || !p.IsUDP || len(p.UDP.Payload) < 48 {
+					return b
+				}
+				l4 := len(b) - len(p.L4Bytes)
+				forged := bytes.Clone(b[l4:])
+				forged[6], forged[7] = 0, 0
+				for _, o := range []int{8 + 32, 8 + 40} {
+					binary.BigEndian.PutUint32(forged[o:], binary.BigEndian.Uint32(forged[o:])+1000)
+				}
+				out := append(append(bytes.Clone(b[:l4]), forged...), b[l4:]...)
+				binary.BigEndian.PutUint16(out[6:], binary.BigEndian.Uint16(out[6:])+uint16(len(forged)))
+				return out
+			}
+		case "reply-hbh-flip":
+			// the reply re-serialized with a hop-by-hop extension in front of the end-to-end extension (authenticator
+			// option and MAC as they were) and one covered payload byte changed
+			relay.mutRsp = func(b []byte) []byte {
+				p, err := wire.Parse(b)
+				if err != nil || !p.IsUDP || !p.HasE2E || len(p.UDP.Payload) < 48 {
+					return b
+				}
+				src, _ := p.SrcAddr()
+				dst, _ := p.DstAddr()
+				out := wire.Pkt{SrcIA: p.SCION.SrcIA, DstIA: p.SCION.DstIA, Src: src, Dst: dst, Path: p.SCION.Path, SrcPort: p.UDP.SrcPort, DstPort: p.UDP.DstPort,
+					Payload: flip(bytes.Clone(p.UDP.Payload)), HBH: true, E2E: p.E2E.Options, TrafficClass: p.SCION.TrafficClass, FlowID: p.SCION.FlowID}
+				raw, err := out.Serialize(nil, nil)
+				if err != nil {
+					return b
+				}
+				return raw
+			}
 		}
 		relay.mu.Unlock()
 		dl := 250 * time.Millisecond
@@ -697,7 +750,7 @@ func TestPropEndToEnd(t *testing.T) {
 			if merr == nil {
 				t.Fatalf("client reported an offset although no reply was delivered")
 			}
-		case authOn && tamper == "reply-byte":
+		case authOn && (tamper == "reply-byte" || tamper == "reply-l4-prefix" || tamper == "reply-hbh-flip"):
 			if merr == nil {
 				t.Fatalf("client accepted a reply whose covered byte was changed after the server authenticated it (offset %v)", off)
 			}
